@@ -30,9 +30,12 @@ well_formed(const coap_rblock_t *t) {
   return 1;
 }
 
+#ifndef USED
+#define USED 2
+#endif
 VERIF_HARNESS(c09_s1_received_blocks) {
   static coap_rblock_t t, pre;
-  VERIF_IN(uint32_t, used);
+  uint32_t used = USED;           /* concrete per job: the code moves 'used - i' entries with memmove */
   VERIF_IN(uint32_t, b0); VERIF_IN(uint32_t, e0); VERIF_IN(uint32_t, b1); VERIF_IN(uint32_t, e1); VERIF_IN(uint32_t, b2); VERIF_IN(uint32_t, e2);
   VERIF_IN(uint32_t, num);
   VERIF_IN(uint32_t, w);          /* universally quantified witness block */
